@@ -27,6 +27,7 @@ published one-step algorithm off the surface (< 1e-6 m within 100 km, < 2 mm up 
 -/
 import Midgard.Proofs.GeoReal
 import Midgard.Proofs.GeoAccuracy
+import Midgard.Proofs.GeoThirdOrder
 import Midgard.Proofs.SourceTie
 import Midgard.Model.Geodetic
 import Midgard.Model.Rotation
@@ -34,6 +35,8 @@ import Midgard.Generated.Ellipsoids
 import Midgard.Generated.EllipsoidFlow
 import Midgard.Model.EllArith
 import Midgard.Generated.EllipsoidArith
+import Midgard.Model.GeoSelect
+import Midgard.Generated.TrsSelect
 
 namespace Midgard.Props.C05
 open Midgard.Geo
@@ -579,6 +582,78 @@ theorem roundtrip_error_partial (E : Ellipsoid ℝ) (hE : Mild E) (v : V3 ℝ)
       (v.x * k) ^ 2 + (v.y * k) ^ 2 + c ^ 2 = (tangentialOffset E (Real.sqrt (v.x * v.x + v.y * v.y)) v.z) ^ 2 :=
   roundtrip_residual E hE v hoff hz hdeep
 
+/-- the southern half space (`z < 0`), by `trs2llh_reflect_z`: the mirror image of `roundtrip_error_partial` — same `R`
+(evaluated at `|z| = −z`), `z` component `v.z + c` -/
+theorem roundtrip_error_south_partial (E : Ellipsoid ℝ) (hE : Mild E) (v : V3 ℝ)
+    (hoff : ¬ v.x * v.x + v.y * v.y ≤ E.a * E.a * 1e-32) (hz : v.z < 0)
+    (hdeep : (E.e2 * (1 - E.f) * E.a) ^ 2 < (1 - E.f) ^ 2 * (v.x * v.x + v.y * v.y) + v.z * v.z) :
+    ∃ k : ℝ, ∃ c : ℝ,
+      llh2trs E (trs2llh E v) = ⟨v.x * (1 + k), v.y * (1 + k), v.z + c⟩ ∧
+      (v.x * k) ^ 2 + (v.y * k) ^ 2 + c ^ 2 = (tangentialOffset E (Real.sqrt (v.x * v.x + v.y * v.y)) (-v.z)) ^ 2 :=
+  roundtrip_residual_south E hE v hoff hz hdeep
+
+/-- the equatorial plane: the round trip is the identity at every height (`R = 0` there) -/
+theorem equator_roundtrip_exact (E : Ellipsoid ℝ) (hE : Mild E) (x y : ℝ)
+    (hoff : ¬ x * x + y * y ≤ E.a * E.a * 1e-32)
+    (hdeep : (E.e2 * (1 - E.f) * E.a) ^ 2 < (1 - E.f) ^ 2 * (x * x + y * y)) :
+    llh2trs E (trs2llh E ⟨x, y, 0⟩) = ⟨x, y, 0⟩ :=
+  equator_roundtrip E hE x y hoff hdeep
+
+/-- `tangentialOffset` is the model function the driver executes (`c05 f toffset`), at `ℝ` -/
+theorem tangentialOffset_is_model (E : Ellipsoid ℝ) (p z : ℝ) :
+    tangentialOffset E p z = offsetAt E p z (halley E p z).1 (halley E p z).2 := rfl
+
+/-- **the exact geodetic latitude is the zero of the tangential offset** (so `R` is nothing but the effect of the
+latitude error of the one Halley step) -/
+theorem offset_zero_at_true_latitude (E : Ellipsoid ℝ) (he0 : 0 ≤ E.e2) (he1 : E.e2 < 1) (s c h k : ℝ)
+    (hsc : s ^ 2 + c ^ 2 = 1) (hk : 0 < k) :
+    let N := E.a / Real.sqrt (1 - E.e2 * s ^ 2)
+    offsetAt E ((N + h) * c) ((N * (1 - E.e2) + h) * s) (k * s) (k * c) = 0 :=
+  offsetAt_true_latitude E he0 he1 s c h k hsc hk
+
+/-- PARTIAL (the bound for the start value): the start value `T₀ = s0/c0` of the scheme at the point with geodetic
+`(φ, h)` differs from the exact tangent of the reduced latitude by exactly `e²·h·tan φ / (q·(N + h))`.
+Full statement (NOT proved): one Halley step from `T₀` leaves a latitude error `≤ K·(T₀ − T*)³` with an explicit `K`,
+whence `|R| < 1e-6 m` for `|h| ≤ 100 km` and `< 2e-3 m` up to 50 000 km (measured: 6.5e-9 m and 1.1e-3 m — the second
+figure leaves a factor 2 only). -/
+theorem start_value_error_partial (a q N h s c : ℝ) (ha : a ≠ 0) (hq : q ≠ 0) (hc : c ≠ 0) (hNh : N + h ≠ 0) :
+    ((N * q ^ 2 + h) * s / a) / (q * ((N + h) * c / a)) - q * (s / c) = (1 - q ^ 2) * h * s / (q * (N + h) * c) :=
+  start_value_error a q N h s c ha hq hc hNh
+
+/-- PARTIAL (the Halley / third-order property, explicit).  With `P = p/a`, `S = |z|/a`, `q = √(1−e²)`,
+`A = √(q²P² + S²)` (`A = q` exactly on the ellipsoid), `(s1, cc) = halley E p z`, `M = P·s1 − S·cc`, `W² = q²s1² + cc²`:
+`(e²·s1·cc)² − M²·W² = −e¹⁰·P⁸·S⁴·(A − q)³·H(A, P, q)/16` with an explicit polynomial `H` (`Proofs/GeoThirdOrder.lean`,
+cofactors found with sympy, checked by `ring`).  Since `R·D·W·(e²·s1·cc + M·W) = a·((e²·s1·cc)² − M²·W²)`
+(definition of `tangentialOffset`, `W = √(…)`), the round-trip error `|R|` carries the factor `e¹⁰·(A − q)³`: it vanishes
+to third order in the height-like quantity `A − q` and to high order in the eccentricity.
+Full statement (NOT proved): the numerical bound `|R| < 1e-6 m` (`|h| ≤ 100 km`) / `< 2e-3 m` (50 000 km) — needs an upper
+bound of `|H|` and lower bounds of `D·W·(e²s1cc + MW)` over the region (measured: 6.5e-9 m / 1.1e-3 m). -/
+theorem halley_third_order_partial (E : Ellipsoid ℝ) (he1 : E.e2 ≤ 1) (p z : ℝ) :
+    let q := Real.sqrt (1 - E.e2)
+    let P := p / E.a
+    let S := z / E.a
+    let A := Real.sqrt (q * P * (q * P) + S * S)
+    let sc := halley E p z
+    (E.e2 * sc.1 * sc.2) ^ 2 - (P * sc.1 - S * sc.2) ^ 2 * (q ^ 2 * (sc.1 * sc.1) + sc.2 * sc.2)
+      = -(E.e2 ^ 5 * P ^ 8 * (S * S) ^ 2 * (A - q) ^ 3 * HH A P q / 16) := by
+  intro q P S A sc
+  have hq2 : q ^ 2 = 1 - E.e2 := Real.sq_sqrt (by linarith)
+  have hE : E.e2 = 1 - q ^ 2 := by linarith
+  have hAA : A * A = q * P * (q * P) + S * S :=
+    Real.mul_self_sqrt (by nlinarith [mul_self_nonneg (q * P), mul_self_nonneg S])
+  obtain ⟨h1, h2⟩ := halley_as_cofactors q P S A E.e2
+    (q * S * (A * A * A) + E.e2 * (S * S * S))
+    (P * (A * A * A) - E.e2 * (q * P * (q * P) * (q * P)))
+    (E.e2 * E.e2 * 1.5 * (S * S) * (q * P * (q * P)) * P * (A - q)) hAA hE rfl rfl rfl
+  have hs1 : sc.1 = P * S * K1 A P q / 2 := h1
+  have hcc : sc.2 = P ^ 2 * q * K2 A P q / 2 := h2
+  have hM : P * sc.1 - S * sc.2 = (1 - q ^ 2) * P ^ 2 * S * K0 A P q / 2 := by
+    rw [hs1, hcc]; exact M_as_cofactor q P S A
+  have := third_order q P S A sc.1 sc.2 hAA hs1 hcc hM
+  rw [← hE] at this
+  exact this
+
+
 /-- the hypotheses are satisfiable: the unit sphere, the point (1, 0, 1) -/
 example : Mild (⟨1, none⟩ : Ellipsoid ℝ) ∧
     ((⟨1, none⟩ : Ellipsoid ℝ).e2 * (1 - (⟨1, none⟩ : Ellipsoid ℝ).f) * 1) ^ 2
@@ -830,6 +905,27 @@ theorem source_trs2llh (E : Ellipsoid ℝ) (v : V3 ℝ) :
   · have h' : ¬ (Src.poleTestSrc E.a (v.x * v.x + v.y * v.y) = true) := fun c => h ((ht _).1 c)
     simp [h, h']
 
+
+/-! ### the selection between pole branch and Halley branch is the source's
+
+`Generated/TrsSelect.lean`: the statements of `_trs2llh` that store into `lat` / `height` (boolean-mask assignments for
+arrays, `if pole_idx … else …` for a single position, then `lat *= np.sign(z)`), read off the `ast` on every run by
+`translator/extract_c05.py`.  `trs2llhVia prog` runs them per row (the driver does, for the shape at hand); both
+programs give the hand-written `trs2llh`, no statement is outside the extractor's fragment, the result columns are
+`(lat, lon, height)`. -/
+theorem source_branch_selection (E : Ellipsoid ℝ) (v : V3 ℝ) :
+    trs2llhVia Midgard.Generated.TrsSelect.prog2d E v = trs2llh E v ∧ trs2llhVia Midgard.Generated.TrsSelect.prog1d E v = trs2llh E v ∧
+    selKnown Midgard.Generated.TrsSelect.prog2d = true ∧ selKnown Midgard.Generated.TrsSelect.prog1d = true ∧
+    Midgard.Generated.TrsSelect.stackOrder = ["lat", "lon", "height"] ∧ Midgard.Generated.TrsSelect.piIsPi = true := by
+  refine ⟨?_, ?_, by decide, by decide, by decide, by decide⟩ <;>
+  · unfold trs2llhVia trs2llh latHeightOf
+    by_cases h : v.x * v.x + v.y * v.y ≤ E.a * E.a * 1e-32
+    · simp [h, runSel, Midgard.Generated.TrsSelect.prog2d, Midgard.Generated.TrsSelect.prog1d, SelMask.holds]
+    · simp [h, runSel, Midgard.Generated.TrsSelect.prog2d, Midgard.Generated.TrsSelect.prog1d, SelMask.holds]
+
+theorem delta_empty_from_forwards :
+    (∀ s ∈ Midgard.Generated.EllipsoidArith.deltaEmptyFrom, s.2 = ExtFwd.keep) ∧ Midgard.Generated.EllipsoidArith.deltaEmptyFrom ≠ [] := by decide
+
 end Source
 
 end Midgard.Props.C05
@@ -884,3 +980,11 @@ end Midgard.Props.C05
 #print axioms Midgard.Props.C05.roundtrip_lon_exact
 #print axioms Midgard.Props.C05.roundtrip_error_partial
 #print axioms Midgard.Props.C05.external_sites_forward
+#print axioms Midgard.Props.C05.roundtrip_error_south_partial
+#print axioms Midgard.Props.C05.equator_roundtrip_exact
+#print axioms Midgard.Props.C05.tangentialOffset_is_model
+#print axioms Midgard.Props.C05.offset_zero_at_true_latitude
+#print axioms Midgard.Props.C05.start_value_error_partial
+#print axioms Midgard.Props.C05.source_branch_selection
+#print axioms Midgard.Props.C05.delta_empty_from_forwards
+#print axioms Midgard.Props.C05.halley_third_order_partial
